@@ -415,6 +415,29 @@ def c_into_iter_identity(eng, st, fr, f, args, site):
     return [(st, args[0])]
 
 
+@contract(r"^(std|core)::iter::IntoIterator::into_iter$")
+def c_into_iter_generic(eng, st, fr, f, args, site):
+    """`IntoIterator::into_iter` on a generic parameter of the inlined function: dispatched on the type the parameter is
+    instantiated with on this call path (the frame's substitution)."""
+    if f.get("self_ty") is None:
+        return None
+    t = eng.T.t(f["self_ty"])
+    if t["k"] == "param":
+        ci = (getattr(fr, "sub", None) or {}).get(t["s"])
+        if ci is None:
+            return None
+        t = eng.T.t(ci)
+    cs = t["s"]
+    if re.match(r"^(std|alloc)::vec::Vec<", cs):
+        return c_vec_into_iter(eng, st, fr, f, args, site)
+    if re.match(r"^&(mut )?((std|alloc)::vec::Vec<|\[)", cs) and "mut" not in cs.split("Vec<")[0].split("[")[0]:
+        return c_slice_iter(eng, st, fr, dict(f, path="<&'a std::vec::Vec<T, A> as std::iter::IntoIterator>::into_iter"), args, site)
+    v = force(eng, st, args[0])
+    if isinstance(v, Cont) and v.kind.startswith("iter:"):
+        return [(st, v)]
+    return None
+
+
 @contract(r"^(std|core)::array::(iter::)?<impl (std|core)::iter::IntoIterator for \[T; N\]>::into_iter$|^<\[T; N\] as (std|core)::iter::IntoIterator>::into_iter$")
 def c_array_into_iter(eng, st, fr, f, args, site):
     """By-value iteration over a small fixed-size array: the iterator knows its elements and position, so a `for`
@@ -786,6 +809,19 @@ def c_iter_next(eng, st, fr, f, args, site):
     except Dead:
         pass
     return outs
+
+
+@contract(r"^(std|core)::iter::Iterator::next$")
+def c_iter_next_generic(eng, st, fr, f, args, site):
+    """`Iterator::next` on a generic / projected iterator type of an inlined generic function: dispatched on the iterator
+    value that reached it on this call path."""
+    r = args[0] if args else None
+    if not isinstance(r, Ref):
+        return None
+    it = deref(eng, st, r)
+    if isinstance(it, Cont) and it.kind in ("iter:val", "iter:ref", "iter:arr"):
+        return c_iter_next(eng, st, fr, f, args, site)
+    return None
 
 
 def _fresh_elem(eng, elem, k):
